@@ -38,10 +38,18 @@ def gen_cases(rng, n_put, n_get):
         thr = 4096 // xs
         n = rng.choice([thr - 1, thr, thr + 1, thr + 2, thr + 9, 2 * thr, 1, 2, 7, 64])
         n = max(n, 2) if 'varn' in api else max(n, 1)
-        lay = rng.choice(['c', 'x', 'x', 'v', 'k', 'k', 'k', 'K', 'q'])
+        lay = rng.choice(['c', 'x', 'x', 'v', 'k', 'k', 'k', 'K', 'q', 'R', 'R'])
         if lay == 'v':
             bl = rng.choice([d for d in (1, 2, 3, 4, 5, 8) if n % d == 0])
             lay = 'v%d_%d' % (bl, bl + rng.below(3))
+        elif lay == 'R':
+            # array of padded records: bufcount = n/bl instances of resized(contiguous(bl), 0, st*elsize), st > bl
+            bl = rng.choice([1, 2, 3, 4])
+            m = thr // bl
+            n = bl * rng.choice([m + 1, m + 2, m + 5, 2 * m, max(m - 1, 1), 2, 3, 7])
+            if 'varn' in api:
+                n = max(n, 2 * bl)
+            lay = 'R%d_%d' % (bl, bl + rng.range(1, 2))
         elif lay in ('k', 'K', 'q'):
             # derived types WITHOUT gaps: contiguous(k), contiguous(k1, contiguous(k2)), contiguous of vector(2, bl, bl)
             if lay == 'k':
@@ -64,10 +72,16 @@ def gen_cases(rng, n_put, n_get):
         memk = xt if (rng.chance(1, 2) or xt == 2) else rng.choice([1, 3, 4, 5, 6, 7, 8, 9, 10, 11])
         rows, cols = rng.range(1, 5), rng.range(1, 6)
         n = rows * cols
-        lay = rng.choice(['c', 'x', 'v', 'm', 'w'])
+        lay = rng.choice(['c', 'x', 'v', 'm', 'w', 'R', 'R'])
+        if lay == 'R' and rng.chance(1, 3):
+            # somewhat larger reads too (the get path has no size threshold; the model evaluation is quadratic in the size)
+            rows = rng.choice([2, 3]); cols = rng.choice([24, 40, 64]); n = rows * cols
         if lay in ('v', 'w'):
             bl = rng.choice([d for d in (1, 2, 3, 4, 5, 6) if n % d == 0])
             lay = '%s%d_%d' % (lay, bl, bl + rng.below(3))
+        elif lay == 'R':
+            bl = rng.choice([d for d in (1, 2, 3, 4, 5, 6) if n % d == 0])
+            lay = 'R%d_%d' % (bl, bl + rng.range(1, 2))
         cases.append(dict(kind='G', id=cid, fmt=fmt, xt=xt, memk=memk, api=rng.choice(['get', 'iget']), rows=rows, cols=cols,
                           n=n, layout=lay))
     return cases
@@ -80,7 +94,7 @@ def case_line(c):
 
 
 def vec(lay):
-    m = re.match(r'[vw](\d+)_(\d+)', lay)
+    m = re.match(r'[vwR](\d+)_(\d+)', lay)
     return (int(m.group(1)), int(m.group(2))) if m else None
 
 
@@ -93,6 +107,8 @@ def btype_of(c):
         k1, k2 = (int(x) for x in lay[1:].split('_')); return n // (k1 * k2), k1 * k2, True
     if lay[0] == 'q':
         return 1, n, False          # a vector combiner inside: iscontig_of_ptypes = 0 although there are no gaps
+    if lay[0] == 'R':
+        bl = vec(lay)[0]; return n // bl, bl, False      # MPI_COMBINER_RESIZED: never contiguous for dtype_decode
     if vec(lay):
         return 1, n, False
     return n, 1, True
